@@ -27,6 +27,7 @@ macro_rules | `(tactic| rlo_act) => `(tactic|
   first
     | with_reducible rlc_prim
     | exact rel_heapSet _ _ (by intro k fr e; cases e)
+    | exact rel_heapUpd _ _ (by intro k fr e; cases e)
     | exact rel_alloc _ (by intro k fr e; cases e <;> assumption)
     | exact rel_opnd1 hw _ _ rfl (by decide)
     | exact rel_opnd2 hw _ _ rfl (by decide)
